@@ -1,9 +1,306 @@
 package main
 
 import (
-	_ "golang.org/x/tools/go/packages"
-	_ "golang.org/x/tools/go/ssa"
-	_ "golang.org/x/tools/go/ssa/ssautil"
+	"encoding/json"
+	"flag"
+	"fmt"
+	"go/ast"
+	"go/parser"
+	"os"
+	"path/filepath"
+	"runtime"
+	"sort"
+	"strings"
+	"sync"
+	"time"
+
+	"golang.org/x/tools/go/packages"
+	"golang.org/x/tools/go/ssa"
+	"golang.org/x/tools/go/ssa/ssautil"
 )
 
-func main() {}
+func parserParseExpr(s string) (ast.Expr, error) { return parser.ParseExpr(s) }
+
+var (
+	repoDir  = "/repo"
+	verifDir = "/verif"
+)
+
+func loadRepo(dir string) (*ssa.Program, *ssa.Package, *packages.Package, error) {
+	cfg := &packages.Config{
+		Mode:       packages.LoadAllSyntax,
+		Dir:        dir,
+		BuildFlags: []string{"-tags=verif"},
+		Env:        append(os.Environ(), "GOFLAGS=-mod=mod", "GOPROXY=off", "GOSUMDB=off", "GOTOOLCHAIN=local"),
+	}
+	pkgs, err := packages.Load(cfg, ".")
+	if err != nil {
+		return nil, nil, nil, err
+	}
+	if packages.PrintErrors(pkgs) > 0 {
+		return nil, nil, nil, fmt.Errorf("/repo does not type-check")
+	}
+	prog, spkgs := ssautil.AllPackages(pkgs, ssa.NaiveForm|ssa.GlobalDebug)
+	prog.Build()
+	return prog, spkgs[0], pkgs[0], nil
+}
+
+func specFiles() (string, []string) {
+	deps, _ := filepath.Glob(filepath.Join(verifDir, "specs", "*.gospec"))
+	sort.Strings(deps)
+	return filepath.Join(repoDir, "zz_contracts_verif.go"), deps
+}
+
+type runCfg struct {
+	tier      string
+	timeoutMs int
+	allSolver bool
+	jobs      int
+}
+
+func main() {
+	if len(os.Args) < 2 {
+		fmt.Fprintln(os.Stderr, "usage: gowp check|verify|dump|replay ...")
+		os.Exit(2)
+	}
+	if d := os.Getenv("GOWP_REPO"); d != "" {
+		repoDir = d
+	}
+	if d := os.Getenv("GOWP_VERIF"); d != "" {
+		verifDir = d
+	}
+	defer cleanupQueryDir()
+	switch os.Args[1] {
+	case "dump":
+		_, pkg, _, err := loadRepo(repoDir)
+		if err != nil {
+			fmt.Println(err)
+			os.Exit(2)
+		}
+		x := newExec(nil, pkg, nil, &SpecSet{})
+		x.prog = pkg.Prog
+		for _, name := range os.Args[2:] {
+			fn := x.lookupFunc(name)
+			if fn == nil {
+				fmt.Println("not found:", name)
+				continue
+			}
+			fn.WriteTo(os.Stdout)
+			for _, a := range fn.AnonFuncs {
+				a.WriteTo(os.Stdout)
+			}
+		}
+	case "verify":
+		fs := flag.NewFlagSet("verify", flag.ExitOnError)
+		fn := fs.String("func", "", "contract key(s), comma separated")
+		tag := fs.String("tag", "", "only check clauses with this tag (others assumed)")
+		timeout := fs.Int("timeout", 10000, "per-obligation timeout (ms)")
+		verbose := fs.Bool("v", false, "list every obligation")
+		fs.Parse(os.Args[2:])
+		code := cmdVerify(strings.Split(*fn, ","), *tag, *timeout, *verbose)
+		cleanupQueryDir()
+		os.Exit(code)
+	case "check":
+		fs := flag.NewFlagSet("check", flag.ExitOnError)
+		prop := fs.String("property", "", "property id")
+		tier := fs.String("tier", "quick", "quick|thorough")
+		fs.Parse(os.Args[2:])
+		if t := os.Getenv("VERIF_TIER"); t != "" && *tier == "" {
+			*tier = t
+		}
+		code := cmdCheck(*prop, *tier)
+		cleanupQueryDir()
+		os.Exit(code)
+	case "replay":
+		if len(os.Args) < 3 {
+			fmt.Fprintln(os.Stderr, "usage: gowp replay <file>")
+			os.Exit(2)
+		}
+		code := cmdReplay(os.Args[2])
+		cleanupQueryDir()
+		os.Exit(code)
+	default:
+		fmt.Fprintln(os.Stderr, "unknown command", os.Args[1])
+		os.Exit(2)
+	}
+}
+
+// ---------------------------------------------------------------------------------------------
+
+type session struct {
+	x     *Exec
+	specs *SpecSet
+	load  float64
+}
+
+func newSession(onlyTag string) (*session, error) {
+	t0 := time.Now()
+	prog, pkg, tpkg, err := loadRepo(repoDir)
+	if err != nil {
+		return nil, err
+	}
+	cf, deps := specFiles()
+	specs, err := loadSpecs(cf, deps)
+	if err != nil {
+		return nil, err
+	}
+	x := newExec(prog, pkg, tpkg, specs)
+	x.onlyTag = onlyTag
+	return &session{x: x, specs: specs, load: time.Since(t0).Seconds()}, nil
+}
+
+// verifyFuncs runs the executor over the functions, collecting obligations; machinery errors are returned.
+func (s *session) verifyFuncs(keys []string) []string {
+	var errs []string
+	for _, k := range keys {
+		func() {
+			defer func() {
+				if r := recover(); r != nil {
+					switch e := r.(type) {
+					case specError:
+						errs = append(errs, fmt.Sprintf("%s: contract error: %s", k, e.msg))
+					case unsupported:
+						errs = append(errs, fmt.Sprintf("%s: outside the modelled subset: %s", k, e.msg))
+					default:
+						buf := make([]byte, 4096)
+						n := runtime.Stack(buf, false)
+						errs = append(errs, fmt.Sprintf("%s: internal error: %v\n%s", k, r, buf[:n]))
+					}
+				}
+			}()
+			if err := s.x.VerifyFunc(k); err != nil {
+				errs = append(errs, err.Error())
+			}
+		}()
+	}
+	return errs
+}
+
+func buildQuery(o *Obligation, negate bool) string {
+	var b strings.Builder
+	b.WriteString(preludeSMT)
+	lines := o.Script.lines()
+	body := strings.Join(lines, "\n") + "\n" + o.Goal.S
+	if o.Kind != "cover" {
+		b.WriteString(axiomsFor(body))
+	}
+	for _, l := range lines {
+		b.WriteString(l)
+		b.WriteString("\n")
+	}
+	if negate {
+		b.WriteString("(assert (not " + o.Goal.S + "))\n")
+	}
+	b.WriteString("(check-sat)\n(get-model)\n")
+	return b.String()
+}
+
+func discharge(obls []*Obligation, cfg runCfg) {
+	sem := make(chan struct{}, cfg.jobs)
+	var wg sync.WaitGroup
+	for _, o := range obls {
+		if o.Goal.S == "true" && o.Kind != "cover" {
+			o.Res = solveResult{Verdict: "unsat", Solver: "syntactic"}
+			continue
+		}
+		wg.Add(1)
+		sem <- struct{}{}
+		go func(o *Obligation) {
+			defer wg.Done()
+			defer func() { <-sem }()
+			q := buildQuery(o, true)
+			o.Res = solve(q, cfg.timeoutMs, cfg.allSolver, nil)
+		}(o)
+	}
+	wg.Wait()
+}
+
+func cmdVerify(keys []string, tag string, timeoutMs int, verbose bool) int {
+	s, err := newSession(tag)
+	if err != nil {
+		fmt.Println("MACHINERY:", err)
+		return 2
+	}
+	if len(keys) == 1 && keys[0] == "all" {
+		keys = nil
+		for _, k := range s.specs.Order {
+			c := s.specs.Contracts[k]
+			if !c.Dep && !c.Callback && c.Trusted == "" && s.x.lookupFunc(k) != nil {
+				keys = append(keys, k)
+			}
+		}
+	}
+	errs := s.verifyFuncs(keys)
+	for _, e := range errs {
+		fmt.Println("MACHINERY:", e)
+	}
+	t0 := time.Now()
+	discharge(s.x.obls, runCfg{timeoutMs: timeoutMs, jobs: 16})
+	bad := 0
+	byName := map[string][]*Obligation{}
+	var order []string
+	for _, o := range s.x.obls {
+		if _, ok := byName[o.Name]; !ok {
+			order = append(order, o.Name)
+		}
+		byName[o.Name] = append(byName[o.Name], o)
+	}
+	for _, n := range order {
+		os_ := byName[n]
+		ok := true
+		var worst *Obligation
+		tmax := 0.0
+		for _, o := range os_ {
+			good := o.Res.Verdict == "unsat"
+			if o.Kind == "cover" {
+				good = o.Res.Verdict == "sat"
+			}
+			if !good {
+				ok = false
+				if worst == nil {
+					worst = o
+				}
+			}
+			if o.Res.Time > tmax {
+				tmax = o.Res.Time
+			}
+		}
+		if !ok {
+			bad++
+			fmt.Printf("FAIL  %-60s x%d  %s [%s] %s\n      path: %s\n", n, len(os_), worst.Res.Verdict, worst.Res.Solver, worst.Desc, strings.Join(worst.Path, " "))
+			if worst.Res.Verdict == "sat" && worst.Kind != "cover" {
+				fmt.Printf("      model: %s\n", modelSummary(worst))
+			}
+			if worst.Res.Verdict == "error" {
+				fmt.Printf("      raw: %s\n", firstLines(worst.Res.Raw, 6))
+			}
+			if os.Getenv("GOWP_DUMPFAIL") != "" {
+				f := filepath.Join(os.Getenv("GOWP_DUMPFAIL"), sanitize(n)+".smt2")
+				os.WriteFile(f, []byte(buildQuery(worst, true)), 0o644)
+			}
+		} else if verbose {
+			fmt.Printf("ok    %-60s x%d  %.2fs [%s]\n", n, len(os_), tmax, os_[0].Res.Solver)
+		}
+	}
+	fmt.Printf("%d obligation instances (%d named), %d failing names, exec errors %d, paths %d, solve %.1fs\n", len(s.x.obls), len(order), bad, len(errs), s.x.paths, time.Since(t0).Seconds())
+	if len(errs) > 0 {
+		return 2
+	}
+	if bad > 0 {
+		return 1
+	}
+	return 0
+}
+
+func firstLines(s string, n int) string {
+	ls := strings.Split(s, "\n")
+	if len(ls) > n {
+		ls = ls[:n]
+	}
+	return strings.Join(ls, " | ")
+}
+
+func jsonStr(v any) string {
+	b, _ := json.Marshal(v)
+	return string(b)
+}
